@@ -17,8 +17,11 @@ namespace LWWRegister
 
 def new : LWWRegister := ⟨none, 0, 0, false⟩
 
-/-- Set(value, timestamp, nodeID): overwrites unconditionally (no comparison with the receiver) -/
-def set (_r : LWWRegister) (v : Nat) (ts : Int) (n : Nat) : LWWRegister := ⟨some v, ts, n, true⟩
+/-- Set(value, timestamp, nodeID): a write whose stamp loses against the stored one under Merge's
+    order (`ts < r.timestamp || (ts == r.timestamp && nodeID < r.nodeID)`) returns a clone of the
+    receiver (fix 670e96a); otherwise the new write, marked dirty -/
+def set (r : LWWRegister) (v : Nat) (ts : Int) (n : Nat) : LWWRegister :=
+  if ts < r.timestamp ∨ (ts = r.timestamp ∧ n < r.nodeID) then r else ⟨some v, ts, n, true⟩
 
 /-- the test of Merge: `o.timestamp > r.timestamp || (o.timestamp == r.timestamp && o.nodeID > r.nodeID)` -/
 def otherWins (r o : LWWRegister) : Bool :=
